@@ -3,7 +3,7 @@ CONSTANTS
   Reqs = {1, 2}
   MaxSock = 2
   MaxEv = 1
-  MaxUnsol = 1
+  MaxUnsol = 0
   Timed = FALSE
 INVARIANT OwnResponse
 INVARIANT OwnResponsePending
